@@ -853,3 +853,6 @@ def run(report, repo):
   report.guard(c05.r4_run_if, report, repo, rule='C01-R14')
   from sa.rules import extra5  # pylint: disable=g-import-not-at-top
   report.guard(extra5.always_fail_on_every_diagnosis, report, repo, 'C01-R15')
+  from sa.rules import extra5 as _e6  # pylint: disable=g-import-not-at-top
+  report.guard(_e6.monitored_phase_returns_result, report, repo, 'C01-R16')
+  report.guard(_e6.first_terminal_outcome_wins, report, repo, 'C01-R17')
